@@ -173,14 +173,15 @@ type BEvent struct {
 	TLS      bool
 
 	// Data / LMTPData
-	DataIdx   int
-	Read      []byte
-	Calls     []ReadCall
-	Terminal  string // error of the last Read that returned one ("" if none yet)
-	SawEOF    bool
-	Contract  string // io.Reader contract breach, if any
-	StatusSet []string
-	termErr   error
+	DataIdx     int
+	Read        []byte
+	Calls       []ReadCall
+	Terminal    string // error of the last Read that returned one ("" if none yet)
+	SawEOF      bool
+	EarlyReturn bool   // the backend returned with a part of the message unread ("early" messages)
+	Contract    string // io.Reader contract breach, if any
+	StatusSet   []string
+	termErr     error
 }
 
 // SimBackend is the plan-driven, recording backend.
@@ -424,6 +425,14 @@ func (ev *BEvent) consume(r io.Reader, p *DataPlan) {
 	for {
 		if p.ReadMode == readK && len(ev.Read) >= p.ReadK {
 			return
+		}
+		if p.ContentVerdict {
+			// a message marked "early" is refused as soon as its verdict has been read,
+			// with the rest of it still on its way
+			if i := strings.Index(string(ev.Read), "early verdict:E-"); i >= 0 && strings.IndexByte(string(ev.Read[i:]), ';') > 0 {
+				ev.EarlyReturn = true
+				return
+			}
 		}
 		if len(p.ParkReads) > 0 {
 			ev.park(p.ParkReads[i%len(p.ParkReads)])
